@@ -72,7 +72,7 @@ def gen_sim(ctx, n, depth, progs=2, codes=2, targets=("avx", "sse", "null"),
     return parse_lines(res["out"], "BEH"), res
 
 
-def replay(ctx, variant, lines, label, env=None, shards=None):
+def replay(ctx, variant, lines, label, env=None, shards=None, env_of_shard=None):
     """run behaviours through h_api in parallel shards; returns list of trace files"""
     binary = build_harness("h_api", variant)
     def one(a):
@@ -86,7 +86,13 @@ def replay(ctx, variant, lines, label, env=None, shards=None):
              "LSAN_OPTIONS": "print_suppressions=0"}
         if env:
             e.update(env)
-        rc, out = sh([binary, "run", bf], timeout=2400, env=e)
+        if env_of_shard:
+            e.update(env_of_shard(i))
+        if e.get("ORC_DEBUG", "0") not in ("", "0"):
+            # the debug log is not an observable of any check: drop it
+            rc, out = sh("%s run %s 2>/dev/null" % (binary, bf), timeout=2400, env=e)
+        else:
+            rc, out = sh([binary, "run", bf], timeout=2400, env=e)
         if rc not in (0, 3):
             raise MachineryError("h_api failed rc=%d: %s" % (rc, out[-2000:]))
         open(tf + ".stderr", "w").write(out)
@@ -100,8 +106,10 @@ def validate(ctx, tf, focus, label):
         raise MachineryError("empty trace " + tf)
     env = {"F_" + f: "1" for f in focus}
     r = T.validate("Trace_OrcSystem", "Trace_OrcSystem.cfg", tf, env=env, timeout=1800)
-    for m in set(l for l in r["res"]["out"].splitlines() if l.startswith('<<"DRIFT"')):
-        ctx.info("spec-drift " + m)
+    import re as _re
+    for m in set(_re.sub(r", \d+>>$", ">>", l) for l in r["res"]["out"].splitlines() if l.startswith('<<"DRIFT"')):
+        if ("spec-drift " + m) not in ctx.infos:
+            ctx.info("spec-drift " + m)
     nseg = sum(1 for x in rows if x.get("e") == "Reset")
     ctx.cov["trace_states"] = ctx.cov.get("trace_states", 0) + r["res"]["distinct"]
     if r["accepted"]:
